@@ -8,7 +8,7 @@
 static Profile profile_for(const std::string& mode) {
   Profile p;
   if (mode == "C01") { p.w_defer = 2; p.rare_api = true; }
-  else if (mode == "C03") { p.p_aligned = 70; p.w_realloc = 14; p.w_expand = 3; p.w_heap = 2; p.w_talloc = 0; }
+  else if (mode == "C03") { p.p_aligned = 70; p.w_realloc = 14; p.w_expand = 3; p.w_heap = 2; p.w_talloc = 2; }
   else if (mode == "C04") { p.p_zero = 55; p.w_realloc = 16; p.w_zchain = 14; p.w_tfree = 4; p.w_heap = 5; p.w_churn = 4; }
   else if (mode == "C05") { p.w_realloc = 30; p.w_expand = 5; p.w_alloc = 25; p.w_edge = 3; p.rare_api = true; }
   else if (mode == "C06") { p.w_edge = 25; p.big_ok = false; }
